@@ -56,3 +56,381 @@ Qed.
 Lemma between_in_box (R : rect) (c e b : pt) :
   inbox R c -> inbox R e -> (px b - px c) * (px e - px b) >= 0 -> (py b - py c) * (py e - py b) >= 0 -> inbox R b.
 Proof. unfold inbox. intros [C1 C2] [E1 E2] Hx Hy. split; nia. Qed.
+
+(* ------------------------------------------------------------------ *)
+(* one pass of the walk: where the result comes from                    *)
+
+Definition step_src (l : rng) (a b cur : pt) (r : pt * Z) : Prop :=
+  exists s, In s (ring_segments l) /\ collinear_point s a = true /\ collinear_point s b = true /\
+            raycast_on s cur = true /\ (fst r = fst s \/ fst r = snd s) /\ snd r = dotp a b (fst r).
+
+Lemma covers_step_strong (l : rng) (a b cur : pt) (curd : Z) :
+  let r := covers_step l (a, b) cur curd in
+  curd <= snd r /\ (r = (cur, curd) \/ (step_src l a b cur r /\ curd < snd r)).
+Proof.
+  unfold covers_step.
+  assert (G : forall (cands : list (seg * nat)) (acc : pt * Z),
+            (forall si, In si cands -> In (fst si) (ring_segments l)) ->
+            curd <= snd acc /\ (acc = (cur, curd) \/ (step_src l a b cur acc /\ curd < snd acc)) ->
+            let r := fold_left
+              (fun acc0 (si : seg * nat) =>
+                 let s := fst si in
+                 if collinear_point s a && collinear_point s b && raycast_on s cur then
+                   let acc1 := let d := dotp a b (fst s) in if snd acc0 <? d then (fst s, d) else acc0 in
+                   let d := dotp a b (snd s) in if snd acc1 <? d then (snd s, d) else acc1
+                 else acc0) cands acc in
+            curd <= snd r /\ (r = (cur, curd) \/ (step_src l a b cur r /\ curd < snd r))).
+  { induction cands as [|si cands IH]; intros acc Hin Hacc; cbn [fold_left]; [exact Hacc|].
+    apply IH; [intros x Hx; apply Hin; right; exact Hx|].
+    assert (Hs : In (fst si) (ring_segments l)) by (apply Hin; left; reflexivity).
+    cbv zeta. destruct (collinear_point (fst si) a && collinear_point (fst si) b && raycast_on (fst si) cur) eqn:E; [|exact Hacc].
+    rewrite !andb_true_iff in E. destruct E as [[Ca Cb] Ron].
+    destruct Hacc as [Hle Hacc].
+    destruct (Z.ltb_spec (snd acc) (dotp a b (fst (fst si)))) as [L1|L1]; cbn [fst snd].
+    - destruct (Z.ltb_spec (dotp a b (fst (fst si))) (dotp a b (snd (fst si)))) as [L2|L2]; cbn [fst snd].
+      + split; [lia|]. right. split; [|lia]. exists (fst si). cbn [fst snd]. repeat split; try assumption. right. reflexivity.
+      + split; [lia|]. right. split; [|lia]. exists (fst si). cbn [fst snd]. repeat split; try assumption. left. reflexivity.
+    - destruct (Z.ltb_spec (snd acc) (dotp a b (snd (fst si)))) as [L2|L2]; cbn [fst snd].
+      + split; [lia|]. right. split; [|lia]. exists (fst si). cbn [fst snd]. repeat split; try assumption. right. reflexivity.
+      + split; [exact Hle|exact Hacc]. }
+  apply G.
+  - intros si Hsi. unfold ring_search in Hsi. apply filter_In in Hsi. destruct Hsi as [Hsi _].
+    unfold indexed in Hsi. destruct si as [s0 i0]. apply in_combine_l in Hsi. exact Hsi.
+  - cbn [snd]. split; [lia|left; reflexivity].
+Qed.
+
+(* facts about the source segment of a pass that made progress *)
+Lemma src_facts (R : rect) (l : rng) (a b cur : pt) (curd : Z) (r : pt * Z) :
+  (forall s, In s (ring_segments l) -> inbox R (fst s) /\ inbox R (snd s)) ->
+  pt_eqb a b = false -> cross a b cur = 0 -> curd = dotp a b cur ->
+  step_src l a b cur r -> curd < snd r ->
+  inbox R cur /\ inbox R (fst r) /\ cross a b (fst r) = 0 /\ snd r = dotp a b (fst r).
+Proof.
+  intros HR Hab Hcc Hcd (s & Hs & Ca & Cb & Ron & Hend & Hd) Hlt.
+  destruct (HR s Hs) as [B1 B2]. rewrite raycast_on_eq in Ron.
+  pose proof (on_segb_inbox R (fst s) (snd s) cur B1 B2) as Hcur. destruct s as [s1 s2]. cbn [fst snd] in *.
+  specialize (Hcur Ron).
+  assert (He : inbox R (fst r)) by (destruct Hend as [-> | ->]; assumption).
+  split; [exact Hcur|]. split; [exact He|]. split; [|exact Hd].
+  unfold on_segb in Ron. rewrite !andb_true_iff in Ron. destruct Ron as [[[[Rc Rx1] Rx2] Ry1] Ry2].
+  apply Z.eqb_eq in Rc. apply Z.leb_le in Rx1, Rx2, Ry1, Ry2.
+  unfold collinear_point in Ca, Cb. apply Z.eqb_eq in Ca. apply Z.eqb_eq in Cb.
+  destruct a as [ax ay], b as [bx by_], cur as [cx cy], s1 as [s1x s1y], s2 as [s2x s2y], r as [[ex ey] rd].
+  unfold cross, dotp, px, py, pt_eqb in *. cbn [fst snd] in *.
+  (* the source segment is not degenerate: otherwise its ends are cur itself and there is no progress *)
+  assert (Hv : s2x - s1x <> 0 \/ s2y - s1y <> 0).
+  { destruct (Z.eq_dec (s2x - s1x) 0) as [Ex|Ex]; [|left; exact Ex]. destruct (Z.eq_dec (s2y - s1y) 0) as [Ey|Ey]; [|right; exact Ey].
+    exfalso. assert (s2x = s1x) by lia. assert (s2y = s1y) by lia. subst s2x s2y.
+    rewrite Z.min_id, Z.max_id in *. assert (cx = s1x) by lia. assert (cy = s1y) by lia. subst cx cy.
+    destruct Hend as [E|E]; inversion E; subst ex ey; lia. }
+  set (p := s2x - s1x) in *. set (q := s2y - s1y) in *.
+  assert (Pu : p * (by_ - ay) - q * (bx - ax) = 0) by lia.
+  assert (Pe : p * (ey - ay) - q * (ex - ax) = 0).
+  { destruct Hend as [E|E]; inversion E; subst ex ey; unfold p, q in *; lia. }
+  pose proof (parallel2 p q (bx - ax) (by_ - ay) (ex - ax) (ey - ay) Hv Pu Pe) as Hcross. lia.
+Qed.
+
+(* the far end b of the covered segment lies in R when a pass reaches it *)
+Lemma reach_in_box (R : rect) (a b cur e : pt) :
+  pt_eqb a b = false -> cross a b cur = 0 -> cross a b e = 0 -> inbox R cur -> inbox R e ->
+  dotp a b cur <= dotp a b b <= dotp a b e -> inbox R b.
+Proof.
+  intros Hab Hcc Hce Hcur He [D1 D2].
+  destruct a as [ax ay], b as [bx by_], cur as [cx cy], e as [ex ey].
+  unfold pt_eqb in *. unfold cross, dotp, px, py in *. cbn [fst snd] in *.
+  apply andb_false_iff in Hab.
+  assert (Hu : bx - ax <> 0 \/ by_ - ay <> 0) by (destruct Hab as [H|H]; apply Z.eqb_neq in H; lia).
+  destruct (between_coord (bx - ax) (by_ - ay) (cx - ax) (cy - ay) (ex - ax) (ey - ay) Hu) as [Bx By]; try lia.
+  apply (between_in_box R (cx, cy) (ex, ey) (bx, by_) Hcur He); unfold px, py; cbn [fst snd]; lia.
+Qed.
+
+(* the walk: when it answers true, the far end of the segment is in R *)
+Lemma covers_walk_true_end (R : rect) (l : rng) (a b : pt) :
+  (forall s, In s (ring_segments l) -> inbox R (fst s) /\ inbox R (snd s)) -> pt_eqb a b = false ->
+  forall fuel cur curd, cross a b cur = 0 -> curd = dotp a b cur -> curd < dotp a b b ->
+  covers_walk fuel l (a, b) cur curd = Some true -> inbox R b.
+Proof.
+  intros HR Hab. induction fuel as [|f IH]; intros cur curd Hcc Hcd Hlt H; [discriminate|].
+  cbn [covers_walk] in H. pose proof (covers_step_strong l a b cur curd) as S. cbv zeta in S.
+  destruct (covers_step l (a, b) cur curd) as [best bestd]. cbn [fst snd] in *.
+  destruct S as [Hle [E|[Hsrc Hprog]]].
+  - inversion E; subst best bestd. destruct (Z.leb_spec (dotp a b b) curd) as [L|L]; [lia|].
+    rewrite Z.ltb_irrefl in H. cbn [negb] in H. discriminate.
+  - destruct (src_facts R l a b cur curd (best, bestd) HR Hab Hcc Hcd Hsrc Hprog) as (Hcur & He & Hce & Hd). cbn [fst snd] in *.
+    destruct (Z.leb_spec (dotp a b b) bestd) as [L|L].
+    + apply (reach_in_box R a b cur best Hab Hcc Hce Hcur He). lia.
+    + destruct (Z.ltb_spec curd bestd) as [Lt|Ge]; cbn [negb] in H; [|discriminate].
+      apply (IH best bestd Hce Hd L H).
+Qed.
+
+(* ------------------------------------------------------------------ *)
+(* Line.ContainsLine: every vertex of the argument is in the receiver's rectangle *)
+
+Lemma on_segb_ends (a b : pt) : on_segb (a, b) a = true /\ on_segb (a, b) b = true.
+Proof.
+  destruct a as [ax ay], b as [bx by_]. unfold on_segb, cross, px, py. cbn [fst snd].
+  split; rewrite !andb_true_iff, Z.eqb_eq, !Z.leb_le; repeat split; lia.
+Qed.
+
+Lemma seg_ends_in_rect (ps : list pt) (s : seg) : In s (ring_segments (Lr ps)) ->
+  inbox (ring_rect (Lr ps)) (fst s) /\ inbox (ring_rect (Lr ps)) (snd s).
+Proof.
+  intros Hin. destruct s as [a b]. destruct (on_segb_ends a b) as [Ea Eb]. cbn [fst snd].
+  split; apply rect_contains_point_inbox; apply (on_line_segment_in_rect ps (a, b)); try exact Hin; rewrite raycast_on_eq; assumption.
+Qed.
+
+Lemma line_covers_true_ends (ps : list pt) (sg : seg) : line_covers_segment (Lr ps) sg = Some true ->
+  inbox (ring_rect (Lr ps)) (fst sg) /\ inbox (ring_rect (Lr ps)) (snd sg).
+Proof.
+  intros H. destruct (line_covers_true_touch _ _ H) as (s & Hs & Hon).
+  assert (Ha : inbox (ring_rect (Lr ps)) (fst sg)).
+  { apply rect_contains_point_inbox. apply (on_line_segment_in_rect ps s (fst sg) Hs Hon). }
+  split; [exact Ha|]. unfold line_covers_segment in H. destruct (pt_eqb (fst sg) (snd sg)) eqn:E.
+  - apply pt_eqb_eq in E. rewrite <- E. exact Ha.
+  - destruct sg as [a b]. cbn [fst snd] in *.
+    apply (covers_walk_true_end (ring_rect (Lr ps)) (Lr ps) a b (seg_ends_in_rect ps) E (covers_fuel (Lr ps)) a 0); try exact H.
+    + destruct a, b. unfold cross, px, py. cbn [fst snd]. ring.
+    + destruct a, b. unfold dotp, px, py. cbn [fst snd]. ring.
+    + destruct a as [ax ay], b as [bx by_]. unfold pt_eqb in *. unfold dotp, px, py in *. cbn [fst snd] in *.
+      pose proof (Z.square_nonneg (bx - ax)) as S1. pose proof (Z.square_nonneg (by_ - ay)) as S2.
+      apply andb_false_iff in E. destruct E as [E|E]; apply Z.eqb_neq in E.
+      * assert (0 < (bx - ax) * (bx - ax)) by nia. lia.
+      * assert (0 < (by_ - ay) * (by_ - ay)) by nia. lia.
+Qed.
+
+Lemma line_contains_line_ends (ps : list pt) (o : rng) (sg : seg) :
+  line_contains_line (Lr ps) o = Some true -> In sg (ring_segments o) ->
+  inbox (ring_rect (Lr ps)) (fst sg) /\ inbox (ring_rect (Lr ps)) (snd sg).
+Proof.
+  unfold line_contains_line. destruct (ring_empty (Lr ps) || ring_empty o); [discriminate|].
+  intros H Hin. apply line_covers_true_ends. apply (all_some_true_in _ _ H). apply in_map. exact Hin.
+Qed.
+
+(* a rectangle that holds all the points holds their box *)
+Lemma bbox_in_rect (R : rect) (ps : list pt) : ps <> [] -> (forall p, In p ps -> inbox R p) -> rect_contains_rect R (bbox_spec ps) = true.
+Proof.
+  intros Hne H. destruct (bbox_spec_attained ps Hne) as (p1 & p2 & p3 & p4 & I1 & I2 & I3 & I4 & E1 & E2 & E3 & E4). cbv zeta in *.
+  pose proof (H p1 I1) as [A1 _]. pose proof (H p2 I2) as [_ A2]. pose proof (H p3 I3) as [A3 _]. pose proof (H p4 I4) as [_ A4].
+  destruct R as [[a b] [c d]], (bbox_spec ps) as [[e f] [g h]]. unfold rect_contains_rect, px, py in *. cbn [fst snd] in *.
+  destruct (Z.ltb_spec e a), (Z.ltb_spec c g), (Z.ltb_spec f b), (Z.ltb_spec d h); cbn [orb]; try reflexivity; lia.
+Qed.
+
+(* the points of an open series with at least two points are ends of its segments *)
+Lemma line_point_is_end (qs : list pt) (p : pt) : (2 <= length qs)%nat -> In p qs ->
+  exists sg, In sg (path_segs qs) /\ (p = fst sg \/ p = snd sg).
+Proof.
+  revert p. induction qs as [|a [|b r] IH]; intros p Hlen Hin; cbn [length] in Hlen; try lia.
+  destruct Hin as [<-|Hin].
+  - exists (a, b). split; [left; reflexivity|left; reflexivity].
+  - destruct r as [|c r'].
+    + destruct Hin as [<-|[]]. exists (a, b). split; [left; reflexivity|right; reflexivity].
+    + destruct (IH p ltac:(cbn [length]; lia) Hin) as (sg & Hsg & Hp). exists sg. split; [right; exact Hsg|exact Hp].
+Qed.
+
+(* ------------------------------------------------------------------ *)
+(* geometry level                                                       *)
+
+Lemma rcr_of_inbox (R : rect) (mn mx : pt) : inbox R mn -> inbox R mx -> rect_contains_rect R (mn, mx) = true.
+Proof.
+  destruct R as [[a b] [c d]], mn as [e f], mx as [g h]. unfold inbox, rect_contains_rect, px, py. cbn [fst snd].
+  intros [[A1 A2] [A3 A4]] [[B1 B2] [B3 B4]].
+  destruct (Z.ltb_spec e a), (Z.ltb_spec c g), (Z.ltb_spec f b), (Z.ltb_spec d h); cbn [orb]; try reflexivity; lia.
+Qed.
+
+Lemma rcr_point (R : rect) (p : pt) : rect_contains_point R p = true -> rect_contains_rect R (p, p) = true.
+Proof. intros H. apply rect_contains_point_inbox in H. apply rcr_of_inbox; exact H. Qed.
+
+Lemma rcr_refl_wf (r : rect) : rect_wf r -> rect_contains_rect r r = true.
+Proof.
+  destruct r as [[a b] [c d]]. unfold rect_wf, rect_contains_rect, px, py. cbn [fst snd]. intros [W1 W2].
+  rewrite !Z.ltb_irrefl. reflexivity.
+Qed.
+
+Lemma rir_point_contains (R : rect) (p : pt) : rect_intersects_rect R (p, p) = true -> rect_contains_point R p = true.
+Proof.
+  intros H. apply rir_iff in H. apply rect_contains_point_inbox. destruct R as [[a b] [c d]], p as [x y].
+  unfold inbox, px, py in *. cbn [fst snd] in *. lia.
+Qed.
+
+Lemma line_rect_is_bbox (qs : list pt) : ring_empty (Lr qs) = false -> ring_rect (Lr qs) = bbox_spec qs /\ (2 <= length qs)%nat /\
+  ring_segments (Lr qs) = path_segs qs.
+Proof.
+  unfold Lr, ring_empty, ring_rect, ring_segments. rewrite RS_empty, RS_rect, RS_segs. intros He.
+  rewrite (series_rect_spec _ He). cbn [pts]. split; [reflexivity|]. split; [|reflexivity].
+  unfold series_empty, npoints in He. cbn [closed pts andb orb] in He. apply Nat.ltb_ge in He. exact He.
+Qed.
+
+Theorem g_contains_covers (a b : gshape) : built2 a -> built2 b -> g_wf a -> g_wf b ->
+  g_nonempty b = true -> gcb a b = true -> rect_contains_rect (g_rect a) (g_rect b) = true.
+Proof.
+  intros Ba Bb Wa Wb Nb. pose proof (g_rect_wf b Bb Wb Nb) as Wrb.
+  unfold gcb. destruct Ba as [p|r|ps|e hs|]; destruct Bb as [q|s|qs|f gs|];
+    cbn [g_contains ob g_rect g_nonempty] in *; intros H; try discriminate.
+  (* point receiver: the argument's rectangle is the point *)
+  - apply pt_eqb_eq in H. subst q. apply rcr_refl_wf. exact Wrb.
+  - unfold point_contains_rect, point_rect in H. apply rect_eqb_eq in H. subst s. apply rcr_refl_wf. exact Wrb.
+  - unfold point_contains_line, point_rect in H. apply andb_true_iff in H. destruct H as [_ H].
+    apply rect_eqb_eq in H. rewrite H. apply rcr_refl_wf. unfold rect_wf. cbn [fst snd]. lia.
+  - unfold point_contains_poly, point_rect in H. apply andb_true_iff in H. destruct H as [_ H].
+    apply rect_eqb_eq in H. rewrite H. apply rcr_refl_wf. unfold rect_wf. cbn [fst snd]. lia.
+  (* rect receiver *)
+  - apply rcr_point. exact H.
+  - exact H.
+  - unfold rect_contains_line in H. apply andb_true_iff in H. destruct H as [_ H]. exact H.
+  - unfold rect_contains_poly in H. apply andb_true_iff in H. destruct H as [_ H]. exact H.
+  (* line receiver *)
+  - apply rcr_point. apply line_point_in_rect. exact H.
+  - destruct (line_contains_rect (Lr ps) s) as [[|]|] eqn:E; try discriminate.
+    unfold line_contains_rect, line_contains_poly in E.
+    destruct (ring_empty (Lr ps) || poly_empty (rect_poly s)); [discriminate|].
+    unfold poly_rect, rect_poly in E. cbn [exterior RR r_rect ring_rect] in E. destruct s as [mn mx].
+    destruct (negb (px mn =? px mx) && negb (py mn =? py mx)); [discriminate|].
+    destruct (line_contains_line_ends ps (diag_line mn mx) (mn, mx) E (or_introl eq_refl)) as [A B]. cbn [fst snd] in *.
+    apply rcr_of_inbox; assumption.
+  - destruct (line_contains_line (Lr ps) (Lr qs)) as [[|]|] eqn:E; try discriminate.
+    apply negb_true_iff in Nb. destruct (line_rect_is_bbox qs Nb) as (Er & Hlen & Es). rewrite Er.
+    apply bbox_in_rect; [destruct qs; [cbn in Hlen; lia|discriminate]|].
+    intros p Hp. destruct (line_point_is_end qs p Hlen Hp) as (sg & Hsg & Hend). rewrite <- Es in Hsg.
+    destruct (line_contains_line_ends ps (Lr qs) sg E Hsg) as [A B]. destruct Hend as [-> | ->]; assumption.
+  - destruct (line_contains_poly (Lr ps) (Pg f gs)) as [[|]|] eqn:E; try discriminate.
+    unfold line_contains_poly in E. destruct (ring_empty (Lr ps) || poly_empty (Pg f gs)); [discriminate|].
+    destruct (poly_rect (Pg f gs)) as [mn mx] eqn:Er.
+    destruct (negb (px mn =? px mx) && negb (py mn =? py mx)); [discriminate|].
+    destruct (line_contains_line_ends ps (diag_line mn mx) (mn, mx) E (or_introl eq_refl)) as [A B]. cbn [fst snd] in *.
+    apply rcr_of_inbox; assumption.
+  (* polygon receiver *)
+  - apply rcr_point. apply rir_point_contains. apply poly_point_boxes. exact H.
+  - unfold poly_contains_rect, poly_contains_poly in H.
+    destruct (ring_contains_ring (exterior (Pg e hs)) (exterior (rect_poly s)) true) eqn:E; [|discriminate].
+    apply ring_contains_ring_boxes in E. exact E.
+  - unfold poly_contains_line in H. destruct (ring_contains_ring (exterior (Pg e hs)) (Lr qs) true) eqn:E; [|discriminate].
+    apply ring_contains_ring_boxes in E. exact E.
+  - unfold poly_contains_poly in H. destruct (ring_contains_ring (exterior (Pg e hs)) (exterior (Pg f gs)) true) eqn:E; [|discriminate].
+    apply ring_contains_ring_boxes in E. exact E.
+  (* the nil polygon as receiver contains nothing *)
+  - exfalso. unfold poly_contains_point, mk_poly in H. cbn [exterior holes existsb] in H.
+    rewrite rcp_hit_gen in H. unfold ring_segments, mk_ring in H. rewrite RS_segs in H.
+    cbn [segments_spec closed pts length Nat.ltb Nat.leb on_boundaryb parityb existsb fold_right] in H.
+    destruct (rect_contains_point _ q); discriminate.
+Qed.
+
+(* ------------------------------------------------------------------ *)
+(* object level                                                         *)
+
+Lemma rcr_inbox (R r : rect) (p : pt) : rect_contains_rect R r = true -> inbox r p -> inbox R p.
+Proof. rewrite rcr_iff. unfold inbox. lia. Qed.
+
+(* an occupied position belongs to a non-empty object *)
+Lemma pos_nonempty (o : obj) : forall p, In p (positions o) -> o_empty o = false.
+Proof.
+  induction o as [q|q|r|ps|rs|b IH|k cs IH] using obj_ind'; intros p Hp; cbn [positions o_empty] in *; try reflexivity.
+  - unfold series_empty, mk_line, npoints. cbn [closed pts andb orb]. destruct (length ps <? 2)%nat; [contradiction|reflexivity].
+  - destruct rs as [|e hs]; [contradiction|]. unfold poly_empty, mk_poly. cbn [exterior]. unfold ring_empty, mk_ring. rewrite RS_empty.
+    unfold series_empty, npoints. cbn [closed pts andb]. destruct (length e <? 3)%nat eqn:E; [contradiction|].
+    apply Nat.ltb_ge in E. apply orb_false_iff. split; [reflexivity|]. apply Nat.ltb_ge. lia.
+  - exact (IH p Hp).
+  - apply in_flat_map in Hp. destruct Hp as (c & Hc & Hp). rewrite Forall_forall in IH.
+    apply Bool.not_true_is_false. intros Hall. rewrite forallb_forall in Hall. specialize (Hall c Hc). rewrite (IH c Hc p Hp) in Hall. discriminate.
+Qed.
+
+(* every occupied position of an object is in the rectangle of the object *)
+Lemma pos_in_rect (o : obj) (p : pt) : obj_wf o -> In p (positions o) -> inbox (o_rect o) p.
+Proof.
+  intros Hw Hp. rewrite (o_rect_spec o Hw (pos_nonempty o p Hp)). exact (bbox_spec_tight (positions o) p Hp).
+Qed.
+
+(* a rectangle that holds every occupied position holds the object's rectangle *)
+Lemma rect_of_positions (R : rect) (o : obj) : obj_wf o -> positions o <> [] ->
+  (forall p, In p (positions o) -> inbox R p) -> rect_contains_rect R (o_rect o) = true.
+Proof.
+  intros Hw Hne H. destruct (positions o) as [|p0 r] eqn:E; [congruence|].
+  assert (He : o_empty o = false) by (apply (pos_nonempty o p0); rewrite E; left; reflexivity).
+  rewrite (o_rect_spec o Hw He), E. apply bbox_in_rect; [discriminate|]. rewrite <- E in *. exact H.
+Qed.
+
+Lemma nonempty_has_position (o : obj) : o_empty o = false -> positions o <> [].
+Proof.
+  induction o as [q|q|r|ps|rs|b IH|k cs IH] using obj_ind'; cbn [positions o_empty]; intros He; try discriminate.
+  - unfold series_empty, mk_line, npoints in He. cbn [closed pts andb orb] in He. rewrite He.
+    apply Nat.ltb_ge in He. destruct ps; [cbn in He; lia|discriminate].
+  - destruct rs as [|e hs]; [unfold poly_empty, mk_poly in He; cbn [exterior] in He; unfold ring_empty, mk_ring in He; rewrite RS_empty in He; cbn in He; discriminate|].
+    unfold poly_empty, mk_poly in He. cbn [exterior] in He. unfold ring_empty, mk_ring in He. rewrite RS_empty in He.
+    unfold series_empty, npoints in He. cbn [closed pts andb] in He. apply orb_false_iff in He. destruct He as [He _]. rewrite He.
+    apply Nat.ltb_ge in He. destruct e; [cbn in He; lia|discriminate].
+  - exact (IH He).
+  - destruct (nonempty_child cs He) as (c & Hc & Ec). rewrite Forall_forall in IH. specialize (IH c Hc Ec).
+    intros E. apply IH. destruct (positions c) as [|p0 r] eqn:Ep; [reflexivity|]. exfalso.
+    assert (In p0 (flat_map positions cs)) by (apply in_flat_map; exists c; split; [exact Hc|rewrite Ep; left; reflexivity]).
+    rewrite E in H. contradiction.
+Qed.
+
+(* b within the geometry g, b not empty: g's rectangle covers b's *)
+Theorem o_within_g_covers (b : obj) : forall g, obj_wf b -> built2 g -> g_wf g -> o_empty b = false ->
+  o_within_g b g = true -> rect_contains_rect (g_rect g) (o_rect b) = true.
+Proof.
+  assert (Leaf : forall o go g, leaf_geom o = Some go -> obj_wf o -> built2 g -> g_wf g -> o_empty o = false ->
+                   gcb g go = true -> rect_contains_rect (g_rect g) (o_rect o) = true).
+  { intros o go g Hl Hw Bg Wg He H. rewrite <- (leaf_g_rect o go Hl).
+    apply (g_contains_covers g go Bg (leaf_built2 o go Hl) Wg (leaf_g_wf o go Hl Hw) (leaf_g_nonempty o go Hl He) H). }
+  induction b as [p|p|r|ps|rs|b IH|k cs IH] using obj_ind'; intros g Hw Bg Wg He H; cbn [o_within_g] in H.
+  - apply (Leaf (OPoint p) _ g eq_refl Hw Bg Wg He H).
+  - apply (Leaf (OSimple p) _ g eq_refl Hw Bg Wg He H).
+  - apply (Leaf (ORect r) _ g eq_refl Hw Bg Wg He H).
+  - apply (Leaf (OLine ps) _ g eq_refl Hw Bg Wg He H).
+  - apply (Leaf (OPoly rs) _ g eq_refl Hw Bg Wg He H).
+  - apply IH; assumption.
+  - apply andb_true_iff in H. destruct H as [_ H]. rewrite forallb_forall in H. rewrite Forall_forall in IH.
+    pose proof (proj1 (obj_wf_coll k cs) Hw) as Hwc. rewrite Forall_forall in Hwc.
+    apply (rect_of_positions (g_rect g) (OColl k cs) Hw (nonempty_has_position _ He)).
+    intros p Hp. cbn [positions] in Hp. apply in_flat_map in Hp. destruct Hp as (c & Hc & Hp).
+    specialize (H c Hc). apply andb_true_iff in H. destruct H as [_ Hc2].
+    apply (rcr_inbox (g_rect g) (o_rect c) p); [|exact (pos_in_rect c p (Hwc c Hc) Hp)].
+    apply (IH c Hc g (Hwc c Hc) Bg Wg (pos_nonempty c p Hp) Hc2).
+Qed.
+
+(* every occupied position of b lies in a non-empty part of b *)
+Lemma pos_in_part (b : obj) : forall p, In p (positions b) ->
+  exists part, In part (for_each_part b) /\ o_empty part = false /\ In p (positions part).
+Proof.
+  induction b as [q|q|r|ps|rs|b IH|k cs IH] using obj_ind'; intros p Hp;
+    try (eexists; split; [left; reflexivity|]; split; [exact (pos_nonempty _ p Hp)|exact Hp]).
+  - cbn [for_each_part]. destruct (ends_in_coll b).
+    + exact (IH p Hp).
+    + eexists. split; [left; reflexivity|]. split; [exact (pos_nonempty (OFeature b) p Hp)|exact Hp].
+  - cbn [positions] in Hp. apply in_flat_map in Hp. destruct Hp as (c & Hc & Hp). rewrite Forall_forall in IH.
+    destruct (IH c Hc p Hp) as (part & Hin & He & Hpp). exists part. split; [|split; assumption].
+    cbn [for_each_part]. apply in_flat_map. exists c. split; assumption.
+Qed.
+
+(* MAIN (object level): if A contains a non-empty B then A's rectangle covers B's *)
+Theorem o_contains_covers (a : obj) : forall b, obj_wf a -> obj_wf b -> o_empty b = false ->
+  o_contains a b = true -> rect_contains_rect (o_rect a) (o_rect b) = true.
+Proof.
+  assert (Leaf : forall o go b, leaf_geom o = Some go -> obj_wf o -> obj_wf b -> o_empty b = false ->
+                   o_within_g b go = true -> rect_contains_rect (o_rect o) (o_rect b) = true).
+  { intros o go b Hl Hwo Hwb He H. rewrite <- (leaf_g_rect o go Hl).
+    apply (o_within_g_covers b go Hwb (leaf_built2 o go Hl) (leaf_g_wf o go Hl Hwo) He H). }
+  induction a as [p|p|r|ps|rs|a IH|k cs IH] using obj_ind'; intros b Hwa Hwb He H; cbn [o_contains] in H.
+  - apply (Leaf (OPoint p) _ b eq_refl Hwa Hwb He H).
+  - apply (Leaf (OSimple p) _ b eq_refl Hwa Hwb He H).
+  - apply (Leaf (ORect r) _ b eq_refl Hwa Hwb He H).
+  - apply (Leaf (OLine ps) _ b eq_refl Hwa Hwb He H).
+  - apply (Leaf (OPoly rs) _ b eq_refl Hwa Hwb He H).
+  - apply IH; assumption.
+  - destruct (forallb o_empty cs); [discriminate|].
+    destruct (nonempty_parts_c b) as [|p0 parts] eqn:Ep; [discriminate|]. rewrite <- Ep in H.
+    rewrite forallb_forall in H. rewrite Forall_forall in IH.
+    pose proof (proj1 (obj_wf_coll k cs) Hwa) as Hwc. rewrite Forall_forall in Hwc.
+    apply (rect_of_positions (o_rect (OColl k cs)) b Hwb (nonempty_has_position _ He)).
+    intros p Hp. destruct (pos_in_part b p Hp) as (part & Hin & Hpe & Hpp).
+    assert (Hnp : In part (nonempty_parts_c b)) by (unfold nonempty_parts_c; apply filter_In; split; [exact Hin|rewrite Hpe; reflexivity]).
+    specialize (H part Hnp). apply existsb_exists in H. destruct H as (c & Hc & H). unfold visits in H.
+    rewrite !andb_true_iff, negb_true_iff in H. destruct H as [[Ec _] Hcp].
+    destruct (part_c_rect_in_obj b part Hwb Hin Hpe) as [_ Hwp].
+    pose proof (IH c Hc part (Hwc c Hc) Hwp Hpe Hcp) as Hcov.
+    apply (rcr_inbox _ (o_rect c) p (child_rect_in_coll k cs c Hwa Hc Ec)).
+    apply (rcr_inbox _ (o_rect part) p Hcov). exact (pos_in_rect part p Hwp Hpp).
+Qed.
+
+Print Assumptions g_contains_covers.
+Print Assumptions o_contains_covers.
